@@ -4,6 +4,7 @@ from __future__ import annotations
 import ast
 
 from sa.larkmodel import get_grammar, transformer_callbacks
+from sa.absint import AObj, Interp
 from sa.pyindex import get_index, is_mutable_literal
 from sa.report import PROP_ASSUMPTIONS, PROP_EXPLANATION, rule
 from sa.stateflow import effects_of, summarise
@@ -168,8 +169,51 @@ def reset_is_unconditional(ctx):
               "ext.reset_flags() and a cleared (or fresh) holder", str(union), fn_where(idx, fr), nontrivial=False)
 
 
+def nodes_own_their_containers(ctx):
+    """a node built for one behaviour shares no mutable container with the long-lived object it refers to (a call node with the routine,
+    a macro invocation with the macro): what one behaviour adds to or removes from such a container would be seen by every later one"""
+    from .common import mk_pure, mk_vt
+
+    idx = get_index(ctx.env)
+    specs = []
+
+    def routine():
+        return AObj("SubRoutine", {"name": "f", "routine_name": "f", "value_type": mk_vt("tret", False, 32), "references_set": set(), "ops": [], "effect_ops": [], "params": [],
+                                   "isa_name": None, "reads": 0}, label="routine")
+    specs.append(("SubRoutineCall", lambda r: [r, [mk_pure("arg", mk_vt("targ", False, 32))]], routine))
+
+    def macro():
+        return AObj("Macro", {"name": "M", "qemu_name": "M", "return_type": mk_vt("tret", False, 32), "param_types": [mk_vt("tp", False, 32)], "rzil_macro": "M"}, label="macro")
+    specs.append(("MacroInvocation", lambda m: ["M", [mk_pure("arg", mk_vt("targ", False, 32))], m], macro))
+    for cls, mk, mk_long in specs:
+        fi = idx.resolve_method(cls, "__init__")
+        ctx.need(fi is not None, f"{cls}.__init__ not found")
+        box = {}
+
+        def once(i, cls=cls, mk=mk, mk_long=mk_long):
+            long_lived = mk_long()
+            box["long"] = long_lived
+            o = AObj(cls, {}, label="node")
+            i.call_function(fi, mk(long_lived), self_obj=o)
+            return o
+        outs = Interp(idx).explore(once)
+        shared = []
+        for o in outs:
+            if o.kind != "return" or not isinstance(o.value, AObj):
+                shared.append(f"constructor did not finish: {str(o.value)[:40]}")
+                continue
+            mine = {k: v for k, v in o.value.fields.items() if isinstance(v, (list, set, dict))}
+            theirs = {k: v for k, v in box["long"].fields.items() if isinstance(v, (list, set, dict))}
+            for k, v in mine.items():
+                for k2, v2 in theirs.items():
+                    if v is v2:
+                        shared.append(f"node.{k} is {box['long'].cls}.{k2}")
+        ctx.check(f"{cls} shares no container with the object it refers to", not shared, "fresh containers", "; ".join(sorted(set(shared))) or "fresh containers", fn_where(idx, fi))
+
+
 @rule("R14.6", "C14", "reset() is unconditional and reaches the state it is meant to reset: every path performs all resets; no other object keeps a private reference to state that reset() replaces; long-lived parameters render alike on every read", min_instances=6)
 def r14_6(ctx):
+    nodes_own_their_containers(ctx)
     idx = get_index(ctx.env)
     reset_is_unconditional(ctx)
     # aliasing: an attribute that some method other than the constructor re-binds must not be cached in another object
